@@ -42,6 +42,46 @@ func propRegistry() map[string]PropSpec {
 	reg := map[string]PropSpec{}
 	add := func(p PropSpec) { reg[p.ID] = p }
 
+	bmcAssume := []string{
+		"bounded: N request threads (2-3) on one cache entry, each one request; K scheduler steps = sum of the threads' longest transaction chains (every complete execution fits; a thread not finished at step K is blocked for ever)",
+		"atomicity reduction (Lipton): lock acquisitions are right-movers, releases left-movers, accesses to cells consistently protected by a held lock both-movers; every other shared access, channel operation and lock acquisition starts a new scheduler-visible transaction; environment stubs (clock, ghost counters) are atomic",
+		"clock: free non-decreasing values in [1,64), lifetimes and hit-for-pass periods < 32 (only the order matters for interleavings; full 64-bit arithmetic is covered by the sequential C04/C07 checks)",
+		"sequentially consistent memory; slices stored in shared fields are modelled by value (bounded sequence with an unwinding obligation)",
+		"no eviction or purge of the entry during the run (purge: C18)",
+	}
+	add(PropSpec{
+		ID: "C01",
+		BMC: []BMCSpec{
+			{Name: "entry3", Pkg: "cache", Fn: "Harness_BMC_entry3", Init: initCache, Only: []string{"C01.", "every-thread-completes"}},
+			{Name: "store2", Pkg: "cache", Fn: "Harness_BMC_entry_store2", Init: initCache, Only: []string{"C01.", "every-thread-completes"}},
+		},
+		Explanation: "Bounded model checking of the real (*httpCache).Get/get/Cacheable/HitForPass (SSA of the current tree) for three concurrent requests on one key under a symbolic scheduler: the schedule, every clock reading (so expiry can fall at any point, also between a waiter's wake-up and its resumption) and every fetch outcome are solver variables. Obligations: at most one request of status fetching is at the upstream at any step; the status a request is given is always decided (fetching, hit or hit-for-pass); every request completes.",
+		Assumptions: bmcAssume,
+		Encoded:     []string{"cache.(*httpCache).Get", "cache.(*httpCache).get", "cache.(*httpCache).Cacheable", "cache.(*httpCache).HitForPass"},
+		Bounds:      map[string]string{"threads": "3 requests on one key", "K": "computed from the transaction graph (21 on the current tree)"},
+	})
+	add(PropSpec{
+		ID: "C02",
+		BMC: []BMCSpec{
+			{Name: "entry3", Pkg: "cache", Fn: "Harness_BMC_entry3", Init: initCache, Only: []string{"C02.", "every-thread-completes", "no-panic", "C01.status"}},
+			{Name: "store2", Pkg: "cache", Fn: "Harness_BMC_entry_store2", Init: initCache, Only: []string{"C02.", "every-thread-completes", "no-panic", "C01.status"}},
+		},
+		Explanation: "Same transition system as C01 (three concurrent requests, symbolic scheduler/clock/outcomes: cacheable or uncacheable-or-failed i.e. HitForPass). Obligations: every thread completes within the step bound under a scheduler that always runs an enabled thread (so a request still parked or blocked at the bound is a lost wake-up or deadlock, including a waiter that registered but had not yet started to wait); fetchers get no response, hits always carry the fetched response; no panic.",
+		Assumptions: bmcAssume,
+		Encoded:     []string{"cache.(*httpCache).Get", "cache.(*httpCache).get", "cache.(*httpCache).Cacheable", "cache.(*httpCache).HitForPass"},
+		Bounds:      map[string]string{"threads": "3", "outcomes": "cacheable / hit-for-pass per fetch, any sequence"},
+	})
+	add(PropSpec{
+		ID: "C20",
+		BMC: []BMCSpec{
+			{Name: "entry3", Pkg: "cache", Fn: "Harness_BMC_entry3", Init: initCache, Only: []string{"race-free", "no-panic", "C02.hit-carries", "every-thread-completes"}},
+		},
+		Explanation: "Data-race freedom on the transition system of C01: a lock-set analysis over all event trees classifies every shared cell; for every cell that is not consistently protected, the solver is asked for a reachable state in which two threads are simultaneously about to perform conflicting accesses (at least one write, no common lock). On the current tree every shared field of the entry is consistently protected by the entry mutex, so no race obligation remains; the obligations reappear as soon as an access loses its lock.",
+		Assumptions: append(append([]string{}, bmcAssume...), "races inside libraries (sync.Map, elton's context pool) and the Go race detector's view of a full process under load are outside the claim"),
+		Encoded:     []string{"cache.(*httpCache).Get", "cache.(*httpCache).get", "cache.(*httpCache).Cacheable", "cache.(*httpCache).HitForPass", "cache.(*httpCache).Age"},
+		Bounds:      map[string]string{"threads": "3"},
+	})
+
 	add(PropSpec{
 		ID: "C03",
 		Harnesses: []HarnessSpec{
@@ -108,6 +148,9 @@ func propRegistry() map[string]PropSpec {
 			{Pkg: "cache", Fn: "Harness_C07_get_step", Init: initCache, Reach: []string{"C07.within-period", "C07.after-period"}, EngineOnly: true},
 			{Pkg: "cache", Fn: "Harness_C07_dispatcher_period", Init: initCache, Reach: []string{"C07.disp.end"}},
 			{Pkg: "cache", Fn: "Harness_C08_hitforpass_restart", Init: initCache, Reach: []string{"C08.hfp.lapsed", "C08.hfp.restored"}},
+		},
+		BMC: []BMCSpec{
+			{Name: "entry3", Pkg: "cache", Fn: "Harness_BMC_entry3", Init: initCache, Only: []string{"C07.", "every-thread-completes"}},
 		},
 		Explanation: "Inductive step on the hit-for-pass marker: for an arbitrary marker (set at any time, any period 1..2^40, with or without a stale response) and any later clock value, one Get() forwards the request (status hitForPass, no response, no queueing, marker untouched) while the period runs, and turns into the single probe (fetching) afterwards; the probe's outcome makes the key cacheable or marks it again. HitForPass(p) uses p seconds, 300 when p <= 0. Concurrent bursts are decided by the BMC systems (C01/C02).",
 		Assumptions: []string{"free non-decreasing 64-bit clock", "period < 2^40 seconds", "sequential step; a request that would be queued shows up as a blocked path (no-deadlock)", "with a store: faithful lazy-TTL store (C08)"},
